@@ -13,7 +13,7 @@ From Utp Require Import Base.Prelude Wire.SeqNr Wire.SeqNr_Proofs Wire.Header Rt
   Mtu.SegSizes Rx.Rx Tx.Ring Tx.Ring_Proofs Tx.Segments Tx.Segments_Proofs Tx.Segments_ProofsOut
   Conn.Recovery Conn.Msg Conn.VSockRec Conn.VSock Conn.VSockRun Conn.VObs
   Conn.VSock_Lemmas Conn.VSock_LemmasStep Conn.VSock_LemmasReach Conn.VSock_LemmasTx
-  Conn.VSock_LemmasIn Conn.VSock_LemmasTimers Conn.VSock_LemmasPipe Conn.C17_StepLemmas
+  Conn.VSock_LemmasIn Conn.VSock_LemmasFin Conn.VSock_LemmasTimers Conn.VSock_LemmasPipe Conn.C17_StepLemmas
   Conn.C06_RecProofs.
 
 Section WithCC.
@@ -116,7 +116,7 @@ Definition brH (r : body_res) : Prop :=
   | BrReturn s' PollReadyOk =>
       exists sb, D sb /\ v_transport_pending sb = false /\ s' = just_before_death sb None
   | BrReturn s' (PollReadyErr e) => exists sb, QE sb e /\ s' = just_before_death sb (Some e)
-  | BrReturn _ PollPanic => True
+  | BrReturn _ PollPanic => False
   | BrRestart s' => A0 s'
   | BrPanic => True
   end.
@@ -205,19 +205,19 @@ Definition resH (s' : vsock) (r : poll_result) : Prop :=
                   s' = poll_tail sb)
   | PollReadyOk => exists sb, D sb /\ v_transport_pending sb = false /\ s' = just_before_death sb None
   | PollReadyErr e => exists sb, QE sb e /\ s' = just_before_death sb (Some e)
-  | PollPanic => True
+  | PollPanic => A0 s'
   end.
 
 Theorem poll_loop_H : forall fuel s s' r,
   A0 s -> poll_loop cci fuel s = (s', r) -> resH s' r.
 Proof.
   induction fuel as [|fuel IH]; intros s s' r HA H; cbn [poll_loop] in H.
-  - inversion H; subst. exact I.
+  - inversion H; subst. exact HA.
   - pose proof (poll_body_H s HA) as F.
     destruct (poll_body cci s) as [s1 r1|s1|]; cbn [brH] in *.
-    + inversion H; subst. destruct r; exact F.
+    + inversion H; subst. destruct r; try exact F. destruct F.
     + eapply IH; [exact F | exact H].
-    + inversion H; subst. exact I.
+    + inversion H; subst. exact HA.
 Qed.
 
 Theorem poll_H : forall s s' r, A0 (poll_init s) -> poll cci s = (s', r) -> resH s' r.
@@ -325,6 +325,856 @@ Proof.
 Qed.
 
 End SegProj.
+
+(* ================================================================== iterator items in sync with the table:
+   indices increasing from n on, the snapshot an item carries IS the table entry, undelivered *)
+Fixpoint synced (l : list seg) (n : nat) (items : list for_sending) : Prop :=
+  match items with
+  | [] => True
+  | f :: r => (n <= fs_idx f)%nat /\ nth_error l (fs_idx f) = Some (fs_seg f) /\
+              sg_delivered (fs_seg f) = false /\ synced l (S (fs_idx f)) r
+  end.
+
+Lemma synced_weaken : forall l items n m, (m <= n)%nat -> synced l n items -> synced l m items.
+Proof.
+  intros l items n m H. destruct items as [|f r]; cbn [synced]; [auto|].
+  intros (A & B & C & D). repeat split; auto. lia.
+Qed.
+
+Lemma synced_update : forall l phi i items n,
+  (i < n)%nat -> synced l n items -> synced (update_nth l i phi) n items.
+Proof.
+  intros l phi i. induction items as [|f r IH]; intros n H; cbn [synced]; [auto|].
+  intros (A & B & C & D). split; [exact A|]. split.
+  - rewrite nth_error_update_nth. destruct (Nat.eqb_spec i (fs_idx f)); [lia | exact B].
+  - split; [exact C|]. apply IH; [lia | exact D].
+Qed.
+
+Lemma synced_filter : forall l p items n, synced l n items -> synced l n (filter p items).
+Proof.
+  intros l p. induction items as [|f r IH]; intros n; cbn [synced filter]; [auto|].
+  intros (A & B & C & D). destruct (p f); cbn [synced].
+  - repeat split; auto.
+  - eapply synced_weaken; [|apply IH; exact D]. lia.
+Qed.
+
+Lemma synced_firstn : forall l k items n, synced l n items -> synced l n (firstn k items).
+Proof.
+  intros l. induction k as [|k IH]; intros [|f r] n; cbn [synced firstn]; auto.
+  intros (A & B & C & D). repeat split; auto.
+Qed.
+
+Lemma synced_take_while : forall l p items n, synced l n items -> synced l n (take_while p items).
+Proof.
+  intros l p. induction items as [|f r IH]; intros n; cbn [synced take_while]; [auto|].
+  intros (A & B & C & D). destruct (p f); cbn [synced]; [repeat split; auto | exact I].
+Qed.
+
+Lemma synced_skip_while : forall l p items n, synced l n items -> synced l n (skip_while p items).
+Proof.
+  intros l p. induction items as [|f r IH]; intros n; cbn [synced skip_while]; [auto|].
+  intros (A & B & C & D). destruct (p f); cbn [synced]; [|repeat split; auto].
+  eapply synced_weaken; [|apply IH; exact D]. lia.
+Qed.
+
+Lemma synced_In : forall l items n f, synced l n items -> In f items ->
+  nth_error l (fs_idx f) = Some (fs_seg f) /\ sg_delivered (fs_seg f) = false.
+Proof.
+  intros l. induction items as [|g r IH]; intros n f; cbn [synced In]; [tauto|].
+  intros (A & B & C & D) [<-|H]; [auto | eapply IH; eauto].
+Qed.
+
+Lemma synced_iter_gen : forall (u rm : Z) (t l' : list seg) i,
+  (forall k x, nth_error l' k = Some x -> nth_error t (i + k) = Some x) ->
+  synced t i
+    (filter (fun f => negb (sg_delivered (fs_seg f)))
+       (map (fun '(i, s) => {| fs_idx := i; fs_seq := wadd16 u (Z.of_nat i mod M16);
+                               fs_payload_offset := sg_abs s - rm; fs_seg := s |})
+            (enum_from i l'))).
+Proof.
+  intros u rm t. induction l' as [|x xs IH]; intros i H; cbn [enum_from map filter synced]; [exact I|].
+  assert (Hx : forall k y, nth_error xs k = Some y -> nth_error t (S i + k) = Some y).
+  { intros k y Hk. replace (S i + k)%nat with (i + S k)%nat by lia. apply H. exact Hk. }
+  cbn [fs_seg]. destruct (sg_delivered x) eqn:Ed; cbn [negb synced fs_idx fs_seg].
+  - eapply synced_weaken; [|apply IH; exact Hx]. lia.
+  - split; [lia|]. split; [rewrite <- (Nat.add_0_r i); apply H; reflexivity|].
+    split; [exact Ed|]. apply IH. exact Hx.
+Qed.
+
+Lemma synced_iter : forall t st, synced (ss_segs t) 0 (iter_for_sending t st).
+Proof.
+  intros t st. unfold iter_for_sending.
+  eapply synced_weaken; [|apply synced_iter_gen]; [lia|].
+  intros k x Hk. rewrite nth_error_skipn in Hk. exact Hk.
+Qed.
+
+(* ================================================================== a rule for send_tx_queue:
+   an invariant I that reads only (segs, out, opts, now, env_now, tx), is kept by a transmission and by
+   popping the failed probe, holds after send_tx_queue; E is what an error leaves *)
+Lemma send_data_err_max : forall (s s1 : vsock) h f,
+  send_data s h f = SErr s1 ErrMaxRetransmissionsReached ->
+  s1 = s /\ seg_retransmit_count (fs_seg f) = o_max_retx (v_opts s).
+Proof.
+  intros s s1 h f. unfold send_data.
+  destruct (Z.eqb_spec (seg_retransmit_count (fs_seg f)) (o_max_retx (v_opts s))) as [E|E].
+  - intro H; inversion H; subst. auto.
+  - destruct (_ <? 0); [discriminate|]. destruct (_ <? fs_payload_offset f); [intro H; inversion H|].
+    destruct (_ <? _ + _); [intro H; inversion H|].
+    destruct (next_send s _) as [s2 o]. destruct o; intro H; inversion H.
+Qed.
+
+Lemma verror_eq_max : forall e : verror,
+  e = ErrMaxRetransmissionsReached \/ e <> ErrMaxRetransmissionsReached.
+Proof. intro e. destruct e; first [left; reflexivity | right; discriminate]. Qed.
+
+Definition nodata (p : packet) : Prop := ch_type (p_hdr p) <> ST_DATA.
+
+Section SendRule.
+Variable Iv : vsock -> Prop.
+Variable Ev : vsock -> verror -> Prop.
+Hypothesis I_same : forall (s s' : vsock) l,
+  v_segs s' = v_segs s -> v_out s' = l ++ v_out s -> Forall nodata l -> v_opts s' = v_opts s ->
+  v_now s' = v_now s -> v_env_now s' = v_env_now s -> Iv s -> Iv s'.
+Hypothesis I_sent : forall (s : vsock) h f s1 n rest,
+  Iv s -> synced (ss_segs (v_segs s)) n (f :: rest) -> send_data s h f = SOk s1 SdSent -> Iv s1.
+Hypothesis E_of_I : forall s e, Iv s -> e <> ErrMaxRetransmissionsReached -> Ev s e.
+Hypothesis E_max : forall (s : vsock) f n rest,
+  Iv s -> synced (ss_segs (v_segs s)) n (f :: rest) ->
+  seg_retransmit_count (fs_seg f) = o_max_retx (v_opts s) -> Ev s ErrMaxRetransmissionsReached.
+Hypothesis I_pop : forall (s : vsock) segs' q ss',
+  Iv s -> pop_mtu_probe (v_segs s) q = (segs', true) ->
+  Iv (set_restart (set_ss (VSockRec.set_segs s segs') ss') true).
+
+Definition stI {X} (m : step X) : Prop :=
+  match m with SOk s' _ => Iv s' | SErr s' e => Ev s' e | SPanic => True end.
+
+Lemma stI_bind : forall X Y (m : step X) (k : vsock -> X -> step Y),
+  stI m -> (forall s1 a, Iv s1 -> stI (k s1 a)) -> stI (sbind m k).
+Proof. intros X Y m k Hm Hk. destruct m as [s1 a|s1 e|]; cbn [sbind stI] in *; auto. Qed.
+
+Lemma sd_unchanged_I : forall (s s1 : vsock),
+  Iv s -> sd_unchanged s s1 -> frame s s1 -> Iv s1.
+Proof.
+  intros s s1 Hi ((F1 & _ & _ & _ & _ & F6 & F7 & _) & Ho & Hs & _) (_ & G2 & _).
+  apply (I_same s s1 []); auto.
+Qed.
+
+(* one transmission attempt *)
+Lemma send_data_rule : forall (s : vsock) h f n rest,
+  Iv s -> synced (ss_segs (v_segs s)) n (f :: rest) ->
+  match send_data s h f with
+  | SOk s1 SdSent => Iv s1 /\ synced (ss_segs (v_segs s1)) (S (fs_idx f)) rest
+  | SOk s1 _ => Iv s1 /\ v_segs s1 = v_segs s
+  | SErr s1 e => Ev s1 e
+  | SPanic => True
+  end.
+Proof.
+  intros s h f n rest Hi Hs.
+  pose proof (send_data_spec s h f) as Hd. pose proof (VSock_Lemmas.send_data_frame s h f) as Hf.
+  destruct (send_data s h f) as [s1 [| |]|s1 e|] eqn:Ed; cbn [step_frame] in Hf; try exact I.
+  - split; [eapply I_sent; eauto|].
+    destruct Hd as (_ & _ & Hsg & _). rewrite Hsg. unfold on_sent, Segments.set_segs. cbn [ss_segs].
+    destruct Hs as (_ & _ & _ & Hr). apply synced_update; [lia | exact Hr].
+  - destruct Hd as (Hu & _). split; [apply (sd_unchanged_I s s1 Hi Hu Hf) | apply Hu].
+  - destruct Hd as (Hu & _). split; [apply (sd_unchanged_I s s1 Hi Hu Hf) | apply Hu].
+  - destruct (verror_eq_max e) as [->|Hne].
+    + apply send_data_err_max in Ed. destruct Ed as [-> Hc]. eapply E_max; eauto.
+    + destruct Hd as (Hu & _). apply E_of_I; [eapply sd_unchanged_I; eauto | exact Hne].
+Qed.
+
+Lemma recovery_loop_rule : forall items (s : vsock) h mss0 st n,
+  Iv s -> synced (ss_segs (v_segs s)) n items -> stI (recovery_loop items s h mss0 st).
+Proof.
+  induction items as [|f rest IH]; intros s h mss0 st n Hi Hs; cbn [recovery_loop]; [exact Hi|].
+  destruct (negb _); [exact Hi|].
+  destruct (_ && negb (sg_lost _)); [apply (IH s h mss0 st (S (fs_idx f))); [exact Hi | apply Hs]|].
+  destruct (_ && negb (sg_sacks_after _)); [exact Hi|].
+  pose proof (send_data_rule s h f n rest Hi Hs) as Hd.
+  destruct (send_data s h f) as [s1 r|s1 e|]; cbn [stI]; auto.
+  destruct r; cbn [stI].
+  - destruct Hd as [H1 H2]. eapply IH; eauto.
+  - apply Hd.
+  - apply E_of_I; [apply Hd | discriminate].
+Qed.
+
+Lemma new_data_loop_rule : forall items (s : vsock) h remaining n,
+  Iv s -> synced (ss_segs (v_segs s)) n items -> stI (new_data_loop items s h remaining).
+Proof.
+  induction items as [|f rest IH]; intros s h remaining n Hi Hs; cbn [new_data_loop]; [exact Hi|].
+  destruct (_ <? _); [exact Hi|].
+  pose proof (send_data_rule s h f n rest Hi Hs) as Hd.
+  destruct (send_data s h f) as [s1 r|s1 e|]; cbn [stI]; auto.
+  destruct r; cbn [stI].
+  - destruct Hd as [H1 H2]. eapply IH; eauto.
+  - apply Hd.
+  - apply Hd.
+Qed.
+
+Lemma on_rto_reactions_I : forall (s s1 : vsock), on_rto_reactions cci s = Some s1 -> Iv s -> Iv s1.
+Proof.
+  intros s s1 H Hi. unfold on_rto_reactions in H. destruct (on_rto_timeout _); [|discriminate].
+  injection H as <-. apply (I_same s _ []); auto.
+Qed.
+
+Lemma maybe_send_fin_I : forall s : vsock, Iv s -> stI (maybe_send_fin s).
+Proof.
+  intros s Hi. pose proof (maybe_send_fin_spec s) as H. pose proof (VSock_Lemmas.maybe_send_fin_frame s) as Hf.
+  destruct (maybe_send_fin s) as [s' [|]|s' e|] eqn:Em; cbn [stI step_frame] in *; try exact I.
+  - destruct H as (seq & _ & _ & (F1 & _ & _ & _ & _ & F6 & F7 & _) & Ho & Hs & _).
+    destruct Hf as (_ & G2 & _).
+    apply (I_same s s' [fin_pkt s seq]); auto.
+    constructor; [|constructor]. unfold nodata, fin_pkt, ctrl_pkt, hdr_with. cbn [p_hdr ch_type]. discriminate.
+  - eapply sd_unchanged_I; eauto.
+  - apply E_of_I; [eapply sd_unchanged_I; eauto|].
+    intro K. subst e. apply maybe_send_fin_err in Em. discriminate.
+Qed.
+
+Ltac i_same a := apply (I_same a _ []); [reflexivity | reflexivity | constructor | reflexivity..|].
+
+Theorem send_tx_queue_rule : forall s : vsock, Iv s -> stI (send_tx_queue cci s).
+Proof.
+  intros s Hi. unfold send_tx_queue.
+  destruct (v_transport_pending s); [exact Hi|].
+  apply stI_bind.
+  - (* the RTO part *)
+    destruct (timer_expired _ _); [|exact Hi].
+    destruct (iter_for_sending (v_segs s) None) as [|f l] eqn:Eit.
+    + assert (Hoff : stI (SOk (A:=bool) (set_t_retransmit s None) false)) by (cbn [stI]; i_same s; exact Hi).
+      destruct (our_fin_if_unacked _); [|exact Hoff].
+      destruct (_ =? _); [|exact Hoff].
+      apply stI_bind.
+      { apply maybe_send_fin_I. i_same s. exact Hi. }
+      intros s1 a H1. destruct a; [|exact H1].
+      destruct (on_rto_reactions cci s1) as [s2|] eqn:E; [|exact I].
+      pose proof (on_rto_reactions_I _ _ E H1) as H2. cbn [stI]. i_same s2. exact H2.
+    + pose proof (synced_iter (v_segs s) None) as Hsy. rewrite Eit in Hsy.
+      pose proof (send_data_rule s (outgoing_header s) f 0%nat l Hi Hsy) as Hd.
+      destruct (send_data _ _ f) as [s1 r|s1 e|]; cbn [stI]; auto.
+      destruct r; cbn [stI].
+      * destruct Hd as [H1 _]. cbv zeta.
+        match goal with |- stI (match ?o with _ => _ end) => destruct o as [s2|] eqn:E end; [|exact I].
+        assert (H2 : Iv s2).
+        { destruct (negb _); [eapply on_rto_reactions_I; eauto | injection E as <-; exact H1]. }
+        cbn [stI]. i_same s2. exact H2.
+      * apply Hd.
+      * apply E_of_I; [apply Hd | discriminate].
+  - intros s1 ret H1. destruct ret; [exact H1|].
+    destruct (0 <? _); [exact H1|]. destruct (ss_segs (v_segs s1)) eqn:Esg; [exact H1|].
+    apply stI_bind.
+    + (* the recovery part *)
+      destruct (rv_phase _) as [rp|d|rc]; try exact H1.
+      apply stI_bind.
+      { apply (recovery_loop_rule _ s1 _ _ _ 0%nat); [exact H1|].
+        apply synced_take_while, synced_skip_while, synced_firstn, synced_iter. }
+      intros s2 [st early] H2. cbv beta iota zeta.
+      assert (H2' : forall rc', Iv (set_recovering s2 rc')) by (intro rc'; unfold set_recovering; i_same s2; exact H2).
+      destruct early; [apply H2'|].
+      match goal with |- stI (match our_fin_if_unacked (v_state ?y) with _ => _ end) =>
+        assert (F3 : Iv y); [|revert F3; generalize y; intros sy F3] end.
+      { destruct (_ <? _); [|apply H2']. destruct (rc_recalc _).
+        - match goal with |- Iv (set_t_recovery_pipe ?a _) => i_same a; apply H2' end.
+        - destruct (0 <? _); [|apply H2'].
+          match goal with |- Iv (set_t_recovery_pipe ?a _) => i_same a; apply H2' end. }
+      destruct (our_fin_if_unacked _); [destruct (_ =? _)|]; cbn [stI]; auto.
+      unfold set_recovering. i_same sy. exact F3.
+    + (* never-sent data *)
+      intros s2 ret H2. destruct ret; [exact H2|].
+      apply stI_bind.
+      { apply (new_data_loop_rule _ s2 _ _ 0%nat); [exact H2 | apply synced_iter]. }
+      intros s3 tl H3. destruct tl as [[sq sz]|]; [|exact H3].
+      destruct (pop_mtu_probe _ _) as [segs' popped] eqn:Ep. destruct popped; cbn [stI].
+      * eapply I_pop; eauto.
+      * apply E_of_I; [exact H3 | discriminate].
+Qed.
+
+End SendRule.
+
+
+(* ================================================================== the footprint relation: the segment
+   table, the options and the clocks are untouched, the datagrams appended are not ST_DATA.  Everything a
+   poll does outside send_tx_queue, the ACK processing, the segmentation and poll_start satisfies it. *)
+Definition fpr (s s' : vsock) : Prop :=
+  v_segs s' = v_segs s /\ v_opts s' = v_opts s /\ v_now s' = v_now s /\ v_env_now s' = v_env_now s /\
+  exists l, v_out s' = l ++ v_out s /\ Forall nodata l.
+
+Lemma fpr_refl : forall s, fpr s s.
+Proof. intro s. unfold fpr. repeat split. exists []. split; [reflexivity | constructor]. Qed.
+
+Lemma fpr_trans : forall a b c, fpr a b -> fpr b c -> fpr a c.
+Proof.
+  unfold fpr. intros a b c (A1 & A2 & A3 & A4 & l1 & A5 & A6) (B1 & B2 & B3 & B4 & l2 & B5 & B6).
+  repeat split; try congruence. exists (l2 ++ l1). split; [rewrite B5, A5; apply app_assoc|].
+  apply Forall_app. split; assumption.
+Qed.
+
+Lemma fpr_same : forall s s' : vsock,
+  v_segs s' = v_segs s -> v_opts s' = v_opts s -> v_now s' = v_now s -> v_env_now s' = v_env_now s ->
+  v_out s' = v_out s -> fpr s s'.
+Proof. intros s s' E1 E2 E3 E4 E5. unfold fpr. repeat split; auto. exists []. split; [exact E5 | constructor]. Qed.
+
+Ltac fpr_leaf := apply fpr_same; reflexivity.
+
+(* errors other than the retransmission cap *)
+Definition nmax (e : verror) : Prop := e <> ErrMaxRetransmissionsReached.
+
+Definition sfp {X} (s : vsock) (m : step X) : Prop :=
+  match m with SOk s' _ => fpr s s' | SErr s' e => fpr s s' /\ nmax e | SPanic => True end.
+
+Lemma sfp_bind : forall X Y (s : vsock) (m : step X) (k : vsock -> X -> step Y),
+  sfp s m -> (forall s1 a, sfp s1 (k s1 a)) -> sfp s (sbind m k).
+Proof.
+  intros X Y s m k Hm Hk. destruct m as [s1 a|s1 e|]; cbn [sbind sfp] in *; auto.
+  specialize (Hk s1 a). destruct (k s1 a); cbn [sfp] in *; auto.
+  - eapply fpr_trans; eauto.
+  - destruct Hk as [K1 K2]. split; [eapply fpr_trans; eauto | exact K2].
+Qed.
+
+Lemma sfp_weaken : forall X (s0 s : vsock) (m : step X), fpr s0 s -> sfp s m -> sfp s0 m.
+Proof.
+  intros X s0 s m H Hm. destruct m; cbn [sfp] in *; auto; [eapply fpr_trans; eauto|].
+  destruct Hm as [K1 K2]. split; [eapply fpr_trans; eauto | exact K2].
+Qed.
+
+Lemma next_send_fpr : forall (s : vsock) n s1 o, next_send s n = (s1, o) -> fpr s s1.
+Proof. intros s n s1 o E. apply next_send_same in E. destruct E as [->|[r ->]]; [apply fpr_refl | fpr_leaf]. Qed.
+
+Lemma send_control_packet_fpr : forall (s : vsock) h,
+  ch_type h <> ST_DATA -> sfp s (send_control_packet s h).
+Proof.
+  intros s h Ht. unfold send_control_packet. destruct (v_transport_pending s); [apply fpr_refl|].
+  destruct (next_send s _) as [s1 o] eqn:E. apply next_send_fpr in E.
+  destruct o; cbn [sfp].
+  - eapply fpr_trans; [exact E|]. unfold on_packet_sent, emit, fpr. vsimpl_goal. repeat split.
+    eexists [_]. split; [reflexivity|]. constructor; [|constructor]. unfold nodata, hdr_with. cbn [p_hdr ch_type].
+    exact Ht.
+  - eapply fpr_trans; [exact E | fpr_leaf].
+  - split; [exact E | discriminate].
+  - split; [exact E | discriminate].
+Qed.
+
+Lemma send_ack_fpr : forall s : vsock, sfp s (send_ack s).
+Proof. intro s. unfold send_ack. apply send_control_packet_fpr. unfold hdr_with. cbn [ch_type]. discriminate. Qed.
+
+Lemma maybe_send_fin_fpr : forall s : vsock, sfp s (maybe_send_fin s).
+Proof.
+  intro s. unfold maybe_send_fin. destruct (v_transport_pending s); [apply fpr_refl|].
+  destruct (our_fin_if_unacked (v_state s)); [|apply fpr_refl].
+  destruct (negb _); [apply fpr_refl|].
+  apply sfp_bind; [apply send_control_packet_fpr; unfold hdr_with; cbn [ch_type]; discriminate|].
+  intros s1 a. destruct a; cbn [sfp]; [fpr_leaf | apply fpr_refl].
+Qed.
+
+Lemma maybe_send_ack_fpr : forall s : vsock, sfp s (maybe_send_ack s).
+Proof.
+  intro s. unfold maybe_send_ack.
+  destruct (immediate_ack_to_transmit s); [apply send_ack_fpr|].
+  destruct (should_send_window_update s); [apply send_ack_fpr|].
+  destruct (timer_expired _ _).
+  - destruct (ack_to_transmit s); [apply send_ack_fpr | cbn [sfp]; fpr_leaf].
+  - destruct (0 <? _); cbn [sfp]; [fpr_leaf | apply fpr_refl].
+Qed.
+
+Lemma maybe_send_syn_ack_fpr : forall s : vsock, sfp s (maybe_send_syn_ack s).
+Proof.
+  intro s. unfold maybe_send_syn_ack.
+  assert (G : forall c, sfp s
+     (if c =? o_max_retx (v_opts s) then SErr s ErrMaxSynAckRetransmissionsReached
+      else sbind (send_ack s) (fun s1 sent =>
+        if sent then SOk (set_t_syn_ack_resend (set_state s1 (SynAckSent (c + 1)))
+               (timer_arm (v_t_syn_ack_resend s1) (v_now s1) SYNACK_RESEND_INTERNAL true)) tt
+        else SOk s1 tt))).
+  { intros c. destruct (_ =? _); [split; [apply fpr_refl | discriminate]|].
+    apply sfp_bind; [apply send_ack_fpr|].
+    intros s1 [|]; cbn [sfp]; [fpr_leaf | apply fpr_refl]. }
+  destruct (v_state s); try (cbn [sfp]; fpr_leaf).
+  - apply G.
+  - destruct (timer_expired _ _); [apply G | apply fpr_refl].
+Qed.
+
+Lemma transition_fpr : forall s : vsock, fpr s (transition_to_fin_wait_1 s).
+Proof. intro s. unfold transition_to_fin_wait_1. destruct (v_state s); first [apply fpr_refl | fpr_leaf]. Qed.
+
+Lemma poll_tail_fpr : forall s : vsock, fpr s (poll_tail s).
+Proof.
+  intro s.
+  destruct (poll_tail_fields s) as (_ & _ & _ & _ & _ & _ & F7 & _ & _ & F10 & _ & F12 & F13 & _ & F15 & _).
+  apply fpr_same; assumption.
+Qed.
+
+Lemma state_table_fpr : forall (s : vsock) h,
+  fpr s (tbl_state (state_table s h)) /\
+  match state_table s h with TblErr _ e => nmax e | _ => True end.
+Proof.
+  intros s h. unfold state_table, restart_remote_inactivity_timer.
+  destruct (ch_type h); destruct (v_state s); cbn [tbl_state negb];
+    repeat (match goal with |- context [if ?c then _ else _] => destruct c end);
+    cbn [tbl_state]; (split; [first [apply fpr_refl | fpr_leaf] | first [exact I | discriminate]]).
+Qed.
+
+Lemma add_err_nmax : forall r e, add_err r = Some e -> nmax e.
+Proof. intros r e. destruct r; cbn [add_err]; intro H; inversion H; discriminate. Qed.
+
+Lemma pim_data_fpr : forall (s2 : vsock) m res offset, sfp s2 (pim_data cci s2 m res offset).
+Proof.
+  intros s2 m res offset. unfold pim_data. destruct (offset <? 0).
+  { cbn [sfp]. unfold force_immediate_ack. fpr_leaf. }
+  cbv zeta.
+  destruct (rx_add_remove _ KData (m_payload m) offset) as [[rx1 ar] w].
+  set (s4 := add_wakes _ _).
+  assert (H4 : fpr s2 s4) by (unfold s4, add_wakes; fpr_leaf).
+  clearbody s4.
+  destruct ar as [r|]; [|exact I].
+  destruct (add_err r) eqn:Ea; [cbn [sfp]; split; [exact H4 | eapply add_err_nmax; exact Ea]|].
+  set (s5 := match r with ArConsumed _ _ => _ | _ => s4 end).
+  assert (H5 : fpr s2 s5).
+  { eapply fpr_trans; [exact H4|]. unfold s5, restart_remote_inactivity_timer.
+    destruct r; first [apply fpr_refl | fpr_leaf]. }
+  clearbody s5.
+  destruct (_ || _); [|exact H5].
+  apply (sfp_weaken _ s2 (force_immediate_ack s5)).
+  { eapply fpr_trans; [exact H5|]. unfold force_immediate_ack. fpr_leaf. }
+  apply sfp_bind; [apply send_ack_fpr|]. intros s6 _. apply fpr_refl.
+Qed.
+
+Lemma pim_fin_fpr : forall (s2 : vsock) m res offset seen, sfp s2 (pim_fin s2 m res offset seen).
+Proof.
+  intros s2 m res offset seen. unfold pim_fin. cbv zeta. destruct (_ && _).
+  - destruct (rx_add_remove _ KFin _ _) as [[rx1 ar] w].
+    destruct ar as [r|]; [|exact I].
+    destruct (add_err r) eqn:Ea.
+    + cbn [sfp]. split; [unfold add_wakes, force_immediate_ack; fpr_leaf | eapply add_err_nmax; exact Ea].
+    + unfold mark_vsock_closed. cbn [sfp]. unfold add_wakes, force_immediate_ack. fpr_leaf.
+  - cbn [sfp]. unfold force_immediate_ack. fpr_leaf.
+Qed.
+
+(* ================================================================== a rule for the incoming path *)
+Section PimRule.
+Variable Iv : vsock -> Prop.
+Hypothesis I_fpr : forall s s', fpr s s' -> Iv s -> Iv s'.
+Hypothesis I_ack : forall (s1 s2 : vsock) h res, Iv s1 -> pim_ack cci s1 h = Some (s2, res) -> Iv s2.
+Hypothesis I_calc : forall (s3 : vsock) hr hd rtt now segs' p rc rcx,
+  Iv s3 -> calc_pipe (v_segs s3) hr hd rtt now = Some (segs', p, rc) ->
+  Iv (set_recovering (VSockRec.set_segs s3 segs') rcx).
+
+Definition spI {X} (m : step X) : Prop :=
+  match m with SOk s' _ => Iv s' | SErr s' e => Iv s' /\ nmax e | SPanic => True end.
+
+Lemma spI_bind : forall X Y (m : step X) (k : vsock -> X -> step Y),
+  spI m -> (forall s1 a, Iv s1 -> spI (k s1 a)) -> spI (sbind m k).
+Proof. intros X Y m k Hm Hk. destruct m as [s1 a|s1 e|]; cbn [sbind spI] in *; auto. Qed.
+
+Lemma sfp_spI : forall X (s : vsock) (m : step X), Iv s -> sfp s m -> spI m.
+Proof.
+  intros X s m Hi H. destruct m; cbn [sfp spI] in *; auto.
+  - eapply I_fpr; eauto.
+  - destruct H as [H1 H2]. split; [eapply I_fpr; eauto | exact H2].
+Qed.
+
+Lemma pim_msg_rule : forall (s : vsock) m, Iv s -> spI (process_incoming_message cci s m).
+Proof.
+  intros s m Hi. rewrite process_incoming_message_eq.
+  destruct (state_table_fpr s (m_hdr m)) as [Ht He].
+  destruct (state_table s (m_hdr m)) as [s1|s1 e|s1]; cbn [tbl_state] in Ht; cbn [spI].
+  - eapply I_fpr; eauto.
+  - split; [eapply I_fpr; eauto | exact He].
+  - assert (H1 : Iv s1) by (eapply I_fpr; eauto).
+    unfold pim_cont. destruct (pim_ack cci s1 (m_hdr m)) as [[s2 res]|] eqn:Ea; [|exact I].
+    pose proof (I_ack _ _ _ _ H1 Ea) as H2. cbv zeta.
+    destruct (ch_type (m_hdr m)); try exact H2.
+    + eapply sfp_spI; [exact H2 | apply pim_data_fpr].
+    + eapply sfp_spI; [exact H2 | apply pim_fin_fpr].
+Qed.
+
+Lemma recv_loop_rule : forall fuel (s : vsock) acc, Iv s -> spI (recv_loop cci fuel s acc).
+Proof.
+  assert (Hbase : forall (s : vsock) (acc : on_ack_result), Iv s ->
+    spI (if v_inbox_closed s
+         then sbind (maybe_send_fin (transition_to_fin_wait_1 s))
+                    (fun s2 _ => SOk (set_state s2 Closed) (acc, true))
+         else SOk (set_inbox_waker s true) (acc, false))).
+  { intros s acc Hi. destruct (v_inbox_closed s).
+    - apply spI_bind.
+      + eapply sfp_spI; [eapply I_fpr; [apply transition_fpr | exact Hi] | apply maybe_send_fin_fpr].
+      + intros s2 _ H2. cbn [spI]. eapply I_fpr; [|exact H2]. fpr_leaf.
+    - cbn [spI]. eapply I_fpr; [|exact Hi]. fpr_leaf. }
+  induction fuel as [|m0 fuel IH]; intros s acc Hi; cbn [recv_loop];
+    destruct (v_inbox s) as [|m rest] eqn:Ei; try (apply Hbase; exact Hi); try exact I.
+  apply spI_bind.
+  - apply pim_msg_rule. eapply I_fpr; [|exact Hi]. fpr_leaf.
+  - intros s1 r H1. destruct (_ || _); [exact H1 | apply IH; exact H1].
+Qed.
+
+Theorem pim_rule : forall s : vsock, Iv s -> spI (process_all_incoming_messages cci s).
+Proof.
+  intros s Hi. rewrite paim_eq. apply spI_bind; [apply recv_loop_rule; exact Hi|].
+  intros s1 res H1. unfold paim_rest.
+  match goal with |- spI (sbind ?m _) =>
+    match m with context [acked_counts_as_sent ?x] => set (s2 := x) end end.
+  assert (F2 : Iv s2).
+  { eapply I_fpr; [|exact H1]. subst s2. unfold restart_remote_inactivity_timer.
+    repeat break_match; first [apply fpr_refl | fpr_leaf]. }
+  clearbody s2.
+  apply spI_bind.
+  - destruct (0 <? _); [|exact F2].
+    assert (F2' : Iv (acked_counts_as_sent s2)).
+    { eapply I_fpr; [|exact F2]. unfold acked_counts_as_sent.
+      destruct (seq_gt _ _ && seq_lt _ _); [fpr_leaf | apply fpr_refl]. }
+    revert F2'. generalize (acked_counts_as_sent s2). intros s2' F2'.
+    destruct (truncate_front _ _) as [tx1 tr].
+    destruct tr; cbn [spI].
+    + destruct (wake_writer tx1) as [tx2 w]. cbn [spI]. eapply I_fpr; [|exact F2']. unfold add_wakes. fpr_leaf.
+    + split; [eapply I_fpr; [|exact F2']; fpr_leaf | discriminate].
+  - intros s3 _ H3. destruct (rv_phase (v_recovery s3)); try exact H3.
+    destruct (calc_pipe _ _ _ _ _) as [[[sg pp] rcl]|] eqn:Ec; [|exact I].
+    cbn [spI]. eapply I_calc; eauto.
+Qed.
+
+End PimRule.
+
+(* ================================================================== a property of the sent-status of every
+   segment of the table survives everything but on_sent *)
+Section SentPred.
+Variable P : sent_status -> Prop.
+Definition SP (l : list seg) : Prop := Forall (fun g => P (sg_sent g)) l.
+
+Lemma SP_app : forall a b, SP (a ++ b) <-> SP a /\ SP b.
+Proof. intros a b. unfold SP. apply Forall_app. Qed.
+
+Lemma SP_firstn : forall n l, SP l -> SP (firstn n l).
+Proof. intros n l H. rewrite <- (firstn_skipn n l) in H. apply SP_app in H. tauto. Qed.
+
+Lemma SP_skipn : forall n l, SP l -> SP (skipn n l).
+Proof. intros n l H. rewrite <- (firstn_skipn n l) in H. apply SP_app in H. tauto. Qed.
+
+Lemma apply_sack_SP : forall l bits now a l' a', apply_sack l bits now a = (l', a') -> SP l -> SP l'.
+Proof.
+  induction l as [|x r IH]; intros bits now a l' a'; cbn [apply_sack].
+  - intro H; injection H as <- _. auto.
+  - destruct bits as [|b bs]; [intro H; injection H as <- _; auto|].
+    destruct (negb (sg_delivered x) && b).
+    + destruct (apply_sack r bs now _) as [r' a''] eqn:E. intro H; injection H as <- _.
+      intro K. inversion K; subst. constructor; [exact H1 | eapply IH; eauto].
+    + destruct (apply_sack r bs now a) as [r' a''] eqn:E. intro H; injection H as <- _.
+      intro K. inversion K; subst. constructor; [exact H1 | eapply IH; eauto].
+Qed.
+
+Lemma strip_delivered_SP : forall l cnt bytes l' cnt' bytes',
+  strip_delivered l cnt bytes = (l', cnt', bytes') -> SP l -> SP l'.
+Proof.
+  induction l as [|x r IH]; intros cnt bytes l' cnt' bytes'; cbn [strip_delivered].
+  - intro H; injection H as <- _ _. auto.
+  - destruct (sg_delivered x).
+    + intros H K. inversion K; subst. eapply IH; eauto.
+    + intro H; injection H as <- _ _. auto.
+Qed.
+
+Lemma sack_phase_SP : forall t rest a1 su now ack sk l' a' dp lse,
+  sack_phase t rest a1 su now ack sk = (l', a', dp, lse) -> SP rest -> SP l'.
+Proof.
+  intros t rest a1 su now ack sk l' a' dp lse. unfold sack_phase.
+  destruct rest as [|x xs]; [intro H; injection H as <- _ _ _; auto|].
+  destruct sk as [k|]; [|intro H; injection H as <- _ _ _; auto].
+  destruct (seq_gt su ack); [|intro H; injection H as <- _ _ _; auto].
+  set (rest := x :: xs). set (so := seq_sub (wadd16 ack 2) su).
+  destruct (0 <=? so).
+  - destruct (apply_sack (skipn (Z.to_nat so) rest) _ now _) as [tl' a''] eqn:E.
+    intro H; injection H as <- _ _ _. intro K. apply SP_app. split; [apply SP_firstn; exact K|].
+    eapply apply_sack_SP; [exact E | apply SP_skipn; exact K].
+  - destruct (apply_sack rest _ now _) as [l2 a''] eqn:E.
+    intro H; injection H as <- _ _ _. eapply apply_sack_SP; exact E.
+Qed.
+
+Lemma remove_up_to_ack_SP : forall t now ack sk t' r,
+  remove_up_to_ack t now ack sk = (t', r) -> SP (ss_segs t) -> SP (ss_segs t').
+Proof.
+  intros t now ack sk t' r. unfold remove_up_to_ack.
+  set (dc := if 0 <=? seq_sub ack (ss_snd_una t) then _ else 0%nat).
+  destruct (sack_phase t (skipn dc (ss_segs t)) _ _ now ack sk) as [[[rest2 a2] dp] lse] eqn:E2.
+  destruct (strip_delivered rest2 0 0) as [[rest3 cnt3] bytes3] eqn:E3.
+  intro H; injection H as <- _. cbn [ss_segs]. intro K.
+  eapply strip_delivered_SP; [exact E3|]. eapply sack_phase_SP; [exact E2|]. apply SP_skipn. exact K.
+Qed.
+
+Lemma pipe_loop_SP : forall l t hr th now a l' a',
+  pipe_loop l t hr th now a = (l', a') -> SP (map snd l) -> SP l'.
+Proof.
+  induction l as [|[off x] r IH]; intros t hr th now a l' a'; cbn [pipe_loop].
+  - intro H; injection H as <- _. auto.
+  - cbn [map snd]. destruct (seg_last_sent x).
+    + destruct (sg_delivered x).
+      * destruct (pipe_loop r t hr th now _) as [r' a''] eqn:E. intro H; injection H as <- _.
+        intro K. inversion K; subst. constructor; [exact H1 | eapply IH; eauto].
+      * destruct (pipe_loop r t hr th now _) as [r' a''] eqn:E. intro H; injection H as <- _.
+        intro K. inversion K; subst. constructor; [exact H1 | eapply IH; eauto].
+    + destruct (pipe_loop r t hr th now a) as [r' a''] eqn:E. intro H; injection H as <- _.
+      intro K. inversion K; subst. constructor; [exact H1 | eapply IH; eauto].
+Qed.
+
+Lemma SP_rev : forall l, SP l -> SP (rev l).
+Proof. intros l H. unfold SP in *. apply Forall_rev. exact H. Qed.
+
+Lemma calc_pipe_SP : forall t hr hd rtt now t' p rc,
+  calc_pipe t hr hd rtt now = Some (t', p, rc) -> SP (ss_segs t) -> SP (ss_segs t').
+Proof.
+  intros t hr hd rtt now t' p rc. unfold calc_pipe. destruct (_ <? _); [discriminate|].
+  set (n := Z.to_nat _).
+  destruct (pipe_loop _ t hr _ now _) as [upd a] eqn:E. intro H; injection H as <- _ _.
+  cbn [Segments.set_segs ss_segs]. intro K. apply SP_app. split; [|apply SP_skipn; exact K].
+  apply SP_rev. eapply pipe_loop_SP; [exact E|].
+  rewrite map_rev, enum_from_snd. apply SP_rev, SP_firstn. exact K.
+Qed.
+
+Lemma recovery_on_ack_SP : forall r h segs ls cc now rtt r' segs' cc',
+  recovery_on_ack cci r h segs ls cc now rtt = Some (r', segs', cc') -> SP (ss_segs segs) -> SP (ss_segs segs').
+Proof.
+  intros r h segs ls cc now rtt r' segs' cc'. unfold recovery_on_ack. cbv zeta.
+  cbn [rv_phase rv_supports_sack rv_last_ack]. intros H K.
+  destruct (rv_phase r).
+  - destruct (seq_ge _ _); injection H as _ <- _; auto.
+  - destruct (ss_segs segs) eqn:Es; [injection H as _ <- _; rewrite Es; auto|]. rewrite <- Es in *.
+    match type of H with (match ?c with _ => _ end) = _ => destruct c as [[dup' la']|] end; [|discriminate].
+    destruct (dup' <? SACK_DUP_THRESH); [injection H as _ <- _; auto|].
+    destruct (calc_pipe _ _ _ _ _) as [[[sg pipe] recalc]|] eqn:Ec; [|discriminate].
+    injection H as _ <- _. eapply calc_pipe_SP; eauto.
+  - destruct (seq_ge _ _); injection H as _ <- _; auto.
+Qed.
+
+Lemma pim_ack_SP : forall (s1 s2 : vsock) h res,
+  pim_ack cci s1 h = Some (s2, res) -> SP (ss_segs (v_segs s1)) ->
+  SP (ss_segs (v_segs s2)) /\ v_opts s2 = v_opts s1 /\ v_out s2 = v_out s1 /\ v_now s2 = v_now s1 /\
+  v_env_now s2 = v_env_now s1.
+Proof.
+  intros s1 s2 h res. unfold pim_ack.
+  destruct (remove_up_to_ack _ _ _ _) as [segs1 res0] eqn:Er.
+  match goal with |- (match ?o with Some _ => _ | None => _ end) = _ -> _ => destruct o as [rtte1|] end; [|discriminate].
+  destruct (cc_on_ack cci _ _ _ _) as [cc3|]; [|discriminate].
+  destruct (recovery_on_ack cci _ _ _ _ _ _ _) as [[[rec1 segs2] cc4]|] eqn:Ero; [|discriminate].
+  intro H; injection H as <- _. intro K. vsimpl_goal. repeat split.
+  eapply recovery_on_ack_SP; [exact Ero|]. eapply remove_up_to_ack_SP; eauto.
+Qed.
+
+Lemma last_and_init_SP : forall l init x, last_and_init l = Some (init, x) -> SP l -> SP init.
+Proof. intros l init x E K. apply last_and_init_app in E. rewrite E in K. apply SP_app in K. tauto. Qed.
+
+Lemma pop_mtu_probe_SP : forall t q t' b, pop_mtu_probe t q = (t', b) -> SP (ss_segs t) -> SP (ss_segs t').
+Proof.
+  intros t q t' b. unfold pop_mtu_probe. destruct (last_and_init (ss_segs t)) as [[init x]|] eqn:E.
+  - destruct (_ && _ && _); intro H; injection H as <- _; [|auto].
+    cbn [Segments.set_segs ss_segs]. eapply last_and_init_SP; eauto.
+  - intro H; injection H as <- _. auto.
+Qed.
+
+Lemma pop_expired_SP : forall t to mr t' pe,
+  pop_expired_mtu_probe t to mr = (t', pe) -> SP (ss_segs t) -> SP (ss_segs t').
+Proof.
+  intros t to mr t' pe. unfold pop_expired_mtu_probe. destruct (last_and_init (ss_segs t)) as [[init x]|] eqn:E.
+  - destruct (sg_delivered x); [intro H; injection H as <- _; auto|].
+    destruct (_ && _ && _); [|destruct (sg_probe x); intro H; injection H as <- _; auto].
+    intro H; injection H as <- _. cbn [Segments.set_segs ss_segs]. eapply last_and_init_SP; eauto.
+  - intro H; injection H as <- _. auto.
+Qed.
+
+Hypothesis P_unsent : P NotSent.
+
+Lemma enqueue_SP : forall t len p, SP (ss_segs t) -> SP (ss_segs (enqueue t len p)).
+Proof.
+  intros t len p K. unfold enqueue. cbn [Segments.set_segs ss_segs]. apply SP_app. split; [exact K|].
+  constructor; [exact P_unsent | constructor].
+Qed.
+
+Lemma segment_loop_SP : forall fuel nagle ss segs rem rwr ss' segs' rem',
+  segment_loop fuel nagle ss segs rem rwr = Some (ss', segs', rem') -> SP (ss_segs segs) -> SP (ss_segs segs').
+Proof.
+  induction fuel as [|x fuel IH]; intros nagle ss segs rem rwr ss' segs' rem' H K; cbn [segment_loop] in H.
+  - inversion H; subst; exact K.
+  - destruct (_ && _); [|inversion H; subst; exact K].
+    destruct (next_segment_size ss) as [[ss1 sz]|] eqn:E; [|discriminate].
+    destruct (_ && _ && _); [inversion H; subst; exact K|].
+    destruct (mss ss1 <? _); [inversion H; subst; apply enqueue_SP; exact K|].
+    eapply IH; [exact H|]. apply enqueue_SP. exact K.
+Qed.
+
+End SentPred.
+
+(* ================================================================== the retry cap: no segment of the table
+   shows more retransmissions than configured; the error exit of the cap shows a segment at the cap *)
+Definition capP (mx : Z) (st : sent_status) : Prop :=
+  0 <= match st with Retransmitted c _ => c | _ => 0 end <= mx.
+
+Definition CAP (s : vsock) : Prop :=
+  SP (capP (o_max_retx (v_opts s))) (ss_segs (v_segs s)) /\ 0 <= o_max_retx (v_opts s).
+
+Definition MAXW (s : vsock) : Prop :=
+  exists g, In g (ss_segs (v_segs s)) /\ seg_retransmit_count g = o_max_retx (v_opts s) /\
+            sg_delivered g = false.
+
+Definition ECAP (s : vsock) (e : verror) : Prop :=
+  CAP s /\ (e = ErrMaxRetransmissionsReached -> MAXW s).
+
+Lemma CAP_eq : forall s s' : vsock, v_segs s' = v_segs s -> v_opts s' = v_opts s -> CAP s -> CAP s'.
+Proof. intros s s' E1 E2. unfold CAP. rewrite E1, E2. auto. Qed.
+
+Lemma MAXW_eq : forall s s' : vsock, v_segs s' = v_segs s -> v_opts s' = v_opts s -> MAXW s -> MAXW s'.
+Proof. intros s s' E1 E2. unfold MAXW. rewrite E1, E2. auto. Qed.
+
+Lemma CAP_fpr : forall s s', fpr s s' -> CAP s -> CAP s'.
+Proof. intros s s' (E1 & E2 & _). apply CAP_eq; assumption. Qed.
+
+Lemma Forall_update_nth : forall A (Q : A -> Prop) (phi : A -> A) l i,
+  Forall Q l -> (forall x, nth_error l i = Some x -> Q (phi x)) -> Forall Q (update_nth l i phi).
+Proof.
+  intros A Q phi. induction l as [|y ys IH]; intros [|i] H K; cbn [update_nth]; auto.
+  - inversion H; subst. constructor; [apply K; reflexivity | assumption].
+  - inversion H; subst. constructor; [assumption | apply IH; auto].
+Qed.
+
+Lemma CAP_sent : forall (s : vsock) h f s1 n rest,
+  CAP s -> synced (ss_segs (v_segs s)) n (f :: rest) -> send_data s h f = SOk s1 SdSent -> CAP s1.
+Proof.
+  intros s h f s1 n rest [Hc H0] (_ & Hn & _ & _) E.
+  pose proof (send_data_spec s h f) as Hd. rewrite E in Hd.
+  destruct Hd as ((_ & _ & _ & _ & _ & F6 & _) & _ & Hsg & _ & _ & _ & Hne & _).
+  unfold CAP. rewrite Hsg, F6. split; [|exact H0].
+  unfold on_sent, Segments.set_segs. cbn [ss_segs]. apply Forall_update_nth; [exact Hc|].
+  intros x Hx. rewrite Hn in Hx. injection Hx as <-.
+  unfold SP in Hc. rewrite Forall_forall in Hc. specialize (Hc _ (nth_error_In _ _ Hn)).
+  unfold capP, seg_on_sent, seg_retransmit_count in *. cbn [sg_sent].
+  destruct (sg_sent (fs_seg f)); lia.
+Qed.
+
+Lemma CAP_pop : forall (s : vsock) segs' q ss',
+  CAP s -> pop_mtu_probe (v_segs s) q = (segs', true) ->
+  CAP (set_restart (set_ss (VSockRec.set_segs s segs') ss') true).
+Proof.
+  intros s segs' q ss' [Hc H0] E. unfold CAP. vsimpl_goal. split; [|exact H0].
+  eapply pop_mtu_probe_SP; eauto.
+Qed.
+
+Lemma ECAP_max : forall (s : vsock) f n rest,
+  CAP s -> synced (ss_segs (v_segs s)) n (f :: rest) ->
+  seg_retransmit_count (fs_seg f) = o_max_retx (v_opts s) -> ECAP s ErrMaxRetransmissionsReached.
+Proof.
+  intros s f n rest Hc (_ & Hn & Hd & _) Hm. split; [exact Hc|]. intros _.
+  exists (fs_seg f). split; [eapply nth_error_In; exact Hn|]. auto.
+Qed.
+
+Lemma ECAP_of : forall s e, CAP s -> e <> ErrMaxRetransmissionsReached -> ECAP s e.
+Proof. intros s e Hc Hn. split; [exact Hc | intro K; contradiction]. Qed.
+
+Lemma stq_CAP : forall s : vsock, CAP s -> stI CAP ECAP (send_tx_queue cci s).
+Proof.
+  intros s Hc. apply send_tx_queue_rule; try exact Hc.
+  - intros a b l E1 _ _ E2 _ _. apply CAP_eq; assumption.
+  - exact CAP_sent.
+  - exact ECAP_of.
+  - exact ECAP_max.
+  - exact CAP_pop.
+Qed.
+
+Lemma pim_CAP : forall s : vsock, CAP s -> spI CAP (process_all_incoming_messages cci s).
+Proof.
+  intros s Hc. apply pim_rule; try exact Hc.
+  - exact CAP_fpr.
+  - intros s1 s2 h res [H1 H0] E. destruct (pim_ack_SP _ _ _ _ _ E H1) as (K1 & K2 & _).
+    unfold CAP. rewrite K2. auto.
+  - intros s3 hr hd rtt now segs' p rc rcx [H1 H0] E. unfold CAP, set_recovering. vsimpl_goal.
+    split; [eapply calc_pipe_SP; eauto | exact H0].
+Qed.
+
+Lemma capP_unsent : forall mx, 0 <= mx -> capP mx NotSent.
+Proof. intros mx H. unfold capP. lia. Qed.
+
+Lemma split_CAP : forall s : vsock, CAP s -> spI CAP (split_tx_queue_into_segments cci s).
+Proof.
+  intros s Hc. unfold split_tx_queue_into_segments.
+  destruct (_ =? 0); [cbn [spI]; eapply CAP_eq; [| |exact Hc]; reflexivity|].
+  match goal with |- context [is_remote_fin_or_later (v_state ?x)] => set (s1 := x) end.
+  assert (F1 : CAP s1).
+  { subst s1. destruct (_ && _); [|exact Hc].
+    destruct (grow _ _) as [tx1 g]. destruct g; [destruct (wake_writer tx1)|];
+      (eapply CAP_eq; [| |exact Hc]; reflexivity). }
+  clearbody s1.
+  destruct (is_remote_fin_or_later _); [exact F1|].
+  destruct (pop_expired_mtu_probe _ _ _) as [segs1 pe] eqn:Ep.
+  assert (Hcont : forall s2 : vsock, CAP s2 ->
+    spI CAP
+      (if Z.of_nat (length (ring (v_tx s))) <? ss_len_bytes (v_segs s2)
+       then SErr s2 (ErrBug BugInBufferComputations)
+       else match segment_loop (ring (v_tx s2)) (o_nagle (v_opts s2)) (v_ss s2) (v_segs s2)
+                    (Z.of_nat (length (ring (v_tx s))) - ss_len_bytes (v_segs s2))
+                    (v_last_remote_window s2) with
+            | Some (ss', segs', remaining) =>
+                SOk (set_unsegmented (VSockRec.set_segs (set_ss s2 ss') segs') remaining) tt
+            | None => SPanic
+            end)).
+  { intros s2 [F2 F0]. destruct (_ <? _); [split; [split; assumption | discriminate]|].
+    destruct (segment_loop _ _ _ _ _ _) as [[[ss' segs'] rem']|] eqn:E; [|exact I].
+    cbn [spI]. unfold CAP. vsimpl_goal. split; [|exact F0].
+    eapply segment_loop_SP; [apply capP_unsent; exact F0 | exact E | exact F2]. }
+  destruct F1 as [F1 F0].
+  destruct pe.
+  - apply Hcont. unfold CAP. destruct (seq_gt _ _); vsimpl_goal; (split; [|exact F0]);
+      eapply pop_expired_SP; eauto.
+  - cbn [spI]. split; assumption.
+  - apply Hcont. split; assumption.
+Qed.
+
+Lemma jbd_CAP : forall (s : vsock) e, CAP s -> CAP (just_before_death s e).
+Proof.
+  intros s e. destruct (jbd_kp s e) as (K & _). destruct (VSock_Lemmas.just_before_death_frame s e) as (F & _).
+  apply CAP_eq; assumption.
+Qed.
+
+Lemma jbd_MAXW : forall (s : vsock) e, MAXW s -> MAXW (just_before_death s e).
+Proof.
+  intros s e. destruct (jbd_kp s e) as (K & _). destruct (VSock_Lemmas.just_before_death_frame s e) as (F & _).
+  apply MAXW_eq; assumption.
+Qed.
+
+Lemma sfp_stH_CAP : forall X (s : vsock) (m : step X), CAP s -> sfp s m -> stH CAP ECAP CAP m.
+Proof.
+  intros X s m Hc H. destruct m as [s' a|s' e|]; cbn [sfp stH] in *; auto.
+  - split; intros _; eapply CAP_fpr; eauto.
+  - destruct H as [H1 H2]. apply ECAP_of; [eapply CAP_fpr; eauto | exact H2].
+Qed.
+
+Lemma spI_stH_CAP : forall X (m : step X), spI CAP m -> stH CAP ECAP CAP m.
+Proof.
+  intros X m H. destruct m as [s' a|s' e|]; cbn [spI stH] in *; auto.
+  destruct H as [H1 H2]. apply ECAP_of; assumption.
+Qed.
+
+(* CAP after every poll, whatever its result; the error exit of the cap shows a segment at the cap *)
+Theorem poll_CAP : forall (s s' : vsock) r,
+  CAP s -> poll cci s = (s', r) ->
+  CAP s' /\ (r = PollReadyErr ErrMaxRetransmissionsReached -> MAXW s').
+Proof.
+  intros s s' r Hc H.
+  assert (HR : resH CAP CAP CAP ECAP s' r).
+  { apply (poll_H CAP CAP CAP CAP CAP CAP CAP ECAP) with (s := s); try exact H.
+    - intros a K. eapply CAP_eq; [| |exact K]; reflexivity.
+    - intros a K _. eapply sfp_stH_CAP; [exact K | apply maybe_send_syn_ack_fpr].
+    - intros a K _. eapply sfp_stH_CAP; [exact K | apply send_ack_fpr].
+    - intros a K _. apply spI_stH_CAP, pim_CAP. exact K.
+    - intros a rx1 fb w K _ _. eapply CAP_eq; [| |exact K]; reflexivity.
+    - intros a K. apply ECAP_of; [exact K | discriminate].
+    - intros a K _. pose proof (split_CAP a K) as S.
+      destruct (split_tx_queue_into_segments cci a); cbn [spI stB] in *; auto.
+      destruct S as [S1 S2]. apply ECAP_of; assumption.
+    - intros a K _ _. pose proof (stq_CAP a K) as S.
+      destruct (send_tx_queue cci a); cbn [stI stQ] in *; auto.
+    - intros a K _. eapply CAP_fpr; [apply transition_fpr | exact K].
+    - intros a K _. eapply sfp_stH_CAP; [exact K | apply maybe_send_fin_fpr].
+    - intros a K _. eapply sfp_stH_CAP; [exact K | apply maybe_send_ack_fpr].
+    - eapply CAP_eq; [| |exact Hc]; reflexivity. }
+  destruct r; cbn [resH] in HR.
+  - split; [|discriminate]. destruct HR as [[_ K]|(sb & K & _ & _ & _ & ->)]; [exact K|].
+    eapply CAP_fpr; [apply poll_tail_fpr | exact K].
+  - split; [|discriminate]. destruct HR as (sb & K & _ & ->). apply jbd_CAP. exact K.
+  - destruct HR as (sb & [K1 K2] & ->). split; [apply jbd_CAP; exact K1|].
+    intro E. injection E as ->. apply jbd_MAXW. apply K2. reflexivity.
+  - split; [exact HR | discriminate].
+Qed.
 
 (* ================================================================== the joint relation of ring and table,
    after every Pending poll:  bytes truncated from the ring = bytes the table dropped as acknowledged,
